@@ -16,11 +16,12 @@ def check(v, wd, vhbin, gs, label, timeout=3000):
     json.dump(gs, open(cp, "w"))
     out = os.path.join(d, "events.txt")
     vlib.vh(vhbin, ["parse-events", cp], outfile=out, timeout=timeout)
-    ev = {}
+    ev, er = {}, {}
     for line in open(out, errors="replace"):
         p = line.rstrip("\n").split("\t")
-        if len(p) == 4:
+        if len(p) >= 4:
             ev[(p[0], int(p[1]), int(p[2]))] = [e for e in p[3].split(";") if e]
+            er[(p[0], int(p[1]), int(p[2]))] = p[4] if len(p) > 4 else "?"
     ntr = 0
     for g in gs:
         for i, inp in enumerate(g["inputs"]):
@@ -29,6 +30,25 @@ def check(v, wd, vhbin, gs, label, timeout=3000):
     json.dump(gs, open(cp, "w"))
     res = vlib.run_tlc(wd, "ParserMachine", cfg="MC_Machine_trace.cfg", modules=["Meaning"], extra_files=[cp], timeout=timeout, heap="24g")
     v.add_tlc(res)
+    # error selection (deepestError bookkeeping): the machine's reported error against the real parser's.  The properties do
+    # not fix WHICH located error is reported, so a disagreement is model drift.
+    nerr = nbad = 0
+    first = None
+    for f in vlib.parse_lines(res.lines, "ERR"):
+        key = (f[0], int(f[1]), int(f[2]))
+        real = er.get(key, "?")
+        if real in ("?", "-"):
+            continue
+        nerr += 1
+        if real != f[3]:
+            nbad += 1
+            first = first or (key, real, f[3])
+    if nerr:
+        v.notes["error_selection_" + label] = "%d failing parses: the reported error (token, kind) equals ParserMachine's in %d" % (nerr, nerr - nbad)
+    if nbad:
+        g = next(g_ for g_ in gs if g_["id"] == first[0][0])
+        log("MODEL-DRIFT: error selection differs from ParserMachine in %d of %d failing parses, e.g. grammar %s lookahead %d input %r: real %s, machine %s" % (nbad, nerr, first[0][0], first[0][1], g["inputs"][first[0][2]]["s"], first[1], first[2]))
+        v.notes["model_drift_error_selection"] = True
     if res.ok:
         v.validated(ntr)
         v.notes["machine_" + label] = "%d hook traces accepted by ParserMachine (Refines, CtxDiscipline, CursorOrder, NoReentry, NoWriteBeforeCommit, Terminates hold)" % ntr
